@@ -91,3 +91,7 @@ Theorem cpu_count_front_spec r :
 Proof. destruct r as [n|]; [|reflexivity]. unfold cpu_count_front. destruct (Z.ltb_spec n 1), (Z.leb_spec 1 n); auto; lia. Qed.
 Theorem cpu_count_logical_sysconf n cpuinfo stat : cpu_count_logical (Some n) cpuinfo stat = Val (Some n).
 Proof. reflexivity. Qed.
+
+(* cpu_count() is a positive int or None: never 0 *)
+Theorem cpu_count_front_pos r n : cpu_count_front r = Some n -> 1 <= n.
+Proof. unfold cpu_count_front. destruct r as [m|]; [|discriminate]. destruct (Z.ltb_spec m 1); [discriminate|]. intros E. inversion E. lia. Qed.
